@@ -6,6 +6,7 @@ import DatamonVerif.Drv.C17
 import DatamonVerif.Drv.C19
 import DatamonVerif.Drv.C20
 import DatamonVerif.Drv.C16
+import DatamonVerif.Drv.C11
 open DV
 
 def main (args : List String) : IO UInt32 := do
@@ -22,4 +23,5 @@ def main (args : List String) : IO UInt32 := do
   | ["model", "C19"] => loop C19.handler inp out C19.handler.init; return 0
   | ["model", "C20"] => loop C20.handler inp out C20.handler.init; return 0
   | ["model", "C16"] => loop C16.handler inp out C16.handler.init; return 0
+  | ["model", "C11"] => loop C11.handler inp out C11.handler.init; return 0
   | _ => IO.eprintln "usage: dvdriver model <Cxx>"; return 2
